@@ -477,7 +477,7 @@ CHECKS["C20"] = {
     "assumptions": ["user and password are C strings (no NUL)"],
     "required_classes": {"all": ["server:gate-close", "server:none", "server:noaccept", "server:script", "expected-success:true", "expected-success:false", "reply-with-silence-beyond-timeout", "real-server-roundtrip"]},
     "jobs": [
-        J("module", VPAM, "TestC20Module", {"shards": 8, "checks": 50, "timeout": 600}, {"shards": 16, "checks": 1500}),
+        J("module", VPAM, "TestC20Module", {"shards": 8, "checks": 50, "timeout": 1200}, {"shards": 16, "checks": 1500}),
         J("realserver", VPAM, "TestC20AgainstRealServer", {"shards": 2, "checks": 40}, {"shards": 8, "checks": 800}),
     ],
 }
